@@ -103,7 +103,11 @@ fn gen_emitter_block(r: &mut Rng, i: u64, src: &mut String, uses: &mut Vec<Strin
     match r.below(5) {
         0 => {
             // usually short, sometimes long enough to exceed any small internal bound on folding depth
-            let n = if r.chance(1, 3) { r.range(9, 30) } else { r.range(2, 5) };
+            let n = match r.below(6) {
+                0 => r.range(9, 30),
+                1 => r.range(30, 160), // far beyond any plausible internal depth bound
+                _ => r.range(2, 5),
+            };
             src.push_str(&format!("const BASE{i}: str = \"base{i}\"\n"));
             for j in 0..n {
                 let prev = if j == 0 { format!("BASE{i}") } else { format!("PART{i}_{}", j - 1) };
